@@ -110,6 +110,12 @@ Section Conv.
   Definition emitted (cc : bool) (scope : list sib) (x : sib) : string := display (rust_name cc scope x).
 End Conv.
 
+(* ---- ASCII lower case (str::to_ascii_lowercase) ------------------------------------------------ *)
+Definition lower_ascii (c : ascii) : ascii :=
+  let n := nat_of_ascii c in if ((65 <=? n) && (n <=? 90))%nat then ascii_of_nat (n + 32) else c.
+Fixpoint lower (s : string) : string :=
+  match s with EmptyString => EmptyString | String c r => String (lower_ascii c) (lower r) end.
+
 (* ---- side condition of the escape stage ----------------------------------------------------- *)
 Fixpoint has_hash (s : string) : bool :=
   match s with EmptyString => false | String c r => (nat_of_ascii c =? 35)%nat || has_hash r end.
